@@ -7,6 +7,7 @@ mod c07;
 mod c01;
 mod c02;
 mod c20;
+mod c11;
 mod cli;
 mod ledger;
 
@@ -71,6 +72,7 @@ fn main() {
         "c02" => c02::run(&o, "C02"),
         "c03" => c02::run(&o, "C03"),
         "c20" => c20::run(&o),
+        "c11" => c11::run(&o),
         _ => {
             eprintln!("unknown property {}", prop);
             std::process::exit(2);
